@@ -61,6 +61,14 @@ pub mod vp_auth {
         #[verifier::external_body]
         fn eq(&self, other: &Self) -> (r: bool) { unimplemented!() }
     }
+    impl vstd::std_specs::cmp::PartialEqSpecImpl<str> for UserId {
+        open spec fn obeys_eq_spec() -> bool { true }
+        open spec fn eq_spec(&self, other: &str) -> bool { self.view() == other@ }
+    }
+    impl PartialEq<str> for UserId {
+        #[verifier::external_body]
+        fn eq(&self, other: &str) -> (r: bool) { unimplemented!() }
+    }
     impl OwnedUserId {
         pub uninterp spec fn view(&self) -> Seq<char>;
         pub uninterp spec fn as_user(&self) -> &UserId;
